@@ -272,8 +272,17 @@ class LocalStorageBackend(StorageBackend):
         )
 
         try:
-            # Write content to temp file
-            os.write(fd, content)
+            # Write content to temp file. os.write() may accept only PART of
+            # the buffer (signal, quota, nearly full device) and says so by its
+            # return value; ignoring that published a truncated manifest /
+            # metadata file / version hint behind an fsync and an atomic rename.
+            view = memoryview(content)
+            written = 0
+            while written < len(view):
+                n = os.write(fd, view[written:])
+                if n <= 0:
+                    raise OSError(f"short write to {temp_path}: {written} of {len(view)} bytes")
+                written += n
 
             # Ensure data is written to disk (durability guarantee)
             os.fsync(fd)
